@@ -166,6 +166,7 @@ func cmdCheck(args []string) int {
 	if *tier == "thorough" {
 		timeout = 90
 		crossCheckAll = true // every answer is cross-checked by the other solvers (20 s each)
+		probesOn = true      // outcome probes at contract calls (notes in the evidence)
 	}
 	ld, err := Load(*repo, filepath.Join(*verif, "contracts/trusted"), nil)
 	if err != nil {
@@ -226,6 +227,7 @@ type Report struct {
 	Verbose     bool
 	Timeout     int
 	Bounded     []*BoundedResult
+	ProbeNotes  []string
 }
 
 // BoundedCheck: a bounded stand-in (contracts/bounded.json) for a clause no contract within reach can express:
@@ -314,6 +316,10 @@ func (r *Report) finish() int {
 		ev := map[string]any{"name": sr.Name, "kind": o.Kind, "status": sr.Status, "solver": sr.Solver, "seconds": round3(sr.Seconds), "pos": strings.TrimPrefix(o.Pos, r.Repo+"/")}
 		oblEv = append(oblEv, ev)
 		if o.Cover {
+			if sr.Status == "cover-vacuous" && o.Probe {
+				r.ProbeNotes = append(r.ProbeNotes, strings.SplitN(sr.Name, "#probe.", 2)[1]+" in "+o.Func)
+				continue
+			}
 			if sr.Status == "cover-vacuous" {
 				lines = append(lines, fmt.Sprintf("BROKEN: vacuity guard %s is unsatisfiable", sr.Name))
 				exit = 2
@@ -542,6 +548,13 @@ func (r *Report) finish() int {
 	}
 	if len(boundedEv) > 0 {
 		cov["bounded_checks"] = boundedEv
+	}
+	sort.Strings(r.ProbeNotes)
+	cov["call_outcomes_excluded_by_contracts"] = r.ProbeNotes
+	if r.Verbose {
+		for _, n := range r.ProbeNotes {
+			lines = append(lines, "note: outcome excluded at a call: "+n)
+		}
 	}
 	if r.Tier == "thorough" && exit == 0 && os.Getenv("VERIF_SELFTEST_CHILD") == "" {
 		st, stLines, ok := r.selfTest()
